@@ -42,6 +42,8 @@ impl<T: 'static + Object> ObjRef<T> {
   /// Retrieve the header from this array
   #[inline]
   fn header(&self) -> &ObjHeader {
+    #[cfg(feature = "verif")]
+    crate::verif::check_header(unsafe { self.header_ptr() });
     #[allow(clippy::cast_ptr_alignment)]
     unsafe {
       &*(self.header_ptr() as *const ObjHeader)
@@ -282,11 +284,15 @@ impl ObjectRef {
 
   #[inline]
   pub fn kind(&self) -> ObjectKind {
+    #[cfg(feature = "verif")]
+    crate::verif::check_header(self.ptr.as_ptr());
     self.header().kind()
   }
 
   #[inline]
   pub fn is_kind(&self, kind: ObjectKind) -> bool {
+    #[cfg(feature = "verif")]
+    crate::verif::check_header(self.ptr.as_ptr());
     self.header().kind() == kind
   }
 
@@ -629,6 +635,8 @@ impl ObjectHandle {
 
   #[inline]
   pub fn kind(&self) -> ObjectKind {
+    #[cfg(feature = "verif")]
+    crate::verif::check_header(self.ptr.as_ptr());
     self.header().kind()
   }
 
